@@ -166,7 +166,7 @@ def dir_plans(rng, tier):
         'e9': [rng.randint(1, 255) for _ in range(9)],
         'e40': [1, 2, 3, 4, 5, 6, 7, 8, 9, 15, 16, 17, 23, 24, 25, 247, 248, 249, 250, 251, 252, 253, 254, 255] + [rng.randint(2, 60) for _ in range(16)],
         'e300': all_len + [rng.randint(2, 40) for _ in range(45)],
-        'e3000': all_len + [rng.randint(3, 24) for _ in range(3000 - 255)],
+        'e3000': [1, 255, 254, 129, 64, 65, 66, 67, 68, 69, 70, 71] + [rng.randint(3, 12) for _ in range(3000 - 12)],
     }
     for k in plans: rng.shuffle(plans[k])
     return plans
@@ -504,7 +504,7 @@ def run_check(tier, seed):
                                     err, fh = cl.opendir(nodeid)
                                     if err: raise FuseError('opendir -> %d' % err)
                                     fhs.append(fh)
-                            hist = run_history(cl, rng, dc, nodeid, fhs, ss, noise, plus_refs)
+                            hist = run_history(cl, rng, dc, nodeid, fhs, ss, noise, plus_refs, max_reqs=(400 if len(dc.oracle) < 1000 or not quick else 160))
                             evals += len(hist)
                             F = judge_history(dc, hist, ss, cfgdesc)
                             findings += F
@@ -513,7 +513,7 @@ def run_check(tier, seed):
                                     nontriv.add((dc.label, kind, noopendir, r['plus'], r['size'], r['off'] == 0, len(r['ents'])))
                             dn = 'dir_%s_%s' % (fsname, dc.name)
                             headers[dn] = dc
-                            full = len(dc.oracle) <= 45
+                            full = len(dc.oracle) <= 12
                             exprs.append((dn, model_exprs(dn, noopendir, fhs, hist, full, kind == 'passthrough')))
                             expr_meta.append({'dir': dc.label, 'config': cfgdesc, 'requests': [{k: r[k] for k in ('fh', 'size', 'off', 'plus')} for r in hist][:60],
                                               'n_requests': len(hist), 'had_finding': bool(F)})
@@ -544,7 +544,7 @@ def run_check(tier, seed):
             hdr = COQ_HEADER
             for dn in sorted(set(exprs[i][0] for i in idx)):
                 if dn in headers: hdr += 'Definition %s : list hent := %s.\n' % (dn, coq_dir(headers[dn].oracle))
-            per = max(3, (len(idx) + 5) // 6) if g != 'small' else max(20, (len(idx) + 7) // 8)
+            per = max(3, (len(idx) + 3) // 4) if g != 'small' else max(20, (len(idx) + 7) // 8)
             t1 = time.time()
             fails, errs = coq_check_cases('c16_' + g, hdr, [exprs[i][1] for i in idx], shard=per, timeout=900)
             log('C16:   %s: %d histories %.1fs' % (g, len(idx), time.time() - t1))
